@@ -273,6 +273,7 @@ def run(tier, seed, meta, chk):
         os.makedirs(outdir)
         procs = []
         reports = {}
+        hung = [0]
 
         def reap(block):
             nonlocal inconclusive
@@ -285,6 +286,7 @@ def run(tier, seed, meta, chk):
                     except subprocess.TimeoutExpired:
                         pr.kill()
                         pr.wait()
+                        hung[0] += 1
                         inconclusive = inconclusive or "a ThreadSanitizer trial exceeded the watchdog"
                         continue
                 if rc is None:
@@ -314,6 +316,11 @@ def run(tier, seed, meta, chk):
             while len(procs) >= chk.NPROC:
                 reap(False)
                 time.sleep(0.01)
+            if hung[0] >= 4:
+                # trials keep hanging (the native engine classifies hangs with a debugger): no point in waiting
+                # two minutes for each of the remaining ones
+                C["tsan_engine_stopped_after_hung_trials"] = hung[0]
+                break
             tseed = (seed * 1000003 + i * 104729 + 99) & 0xffffffff
             threads = thread_choices[i % len(thread_choices)]
             out = os.path.join(outdir, f"t{i}.log")
